@@ -22,6 +22,7 @@ def check(chk, thorough=False):
     chk.run('C19.a', 'R-SCHEMA', 'action -> request flag and action -> assertion tables use the RFC 9171 bits and positions; status report layout equals section 6.1.1', lambda ob: c19a(tree, ob), floor=10)
     chk.run('C19.b', 'R-GUARD', 'no report without a report-to other than dtn:none; an assertion only for an action that occurred and was requested; time only if requested; nothing asserted -> no report', lambda ob: c19b(tree, ob), floor=5)
     chk.run('C19.c', 'R-FLOW', 'the reply goes to the subject report-to, names its source and creation timestamp, is flagged admin-record only (requests no reports), has CRCs, and leaves through Agent.send_bundle', lambda ob: c19c(tree, ob), floor=6)
+    chk.run('C19.d', 'R-NOPATH', 'a bundle whose transmission was taken over by a TX step (fragmentation) does not reach the "no sender" failure that the forwarder reports as deleted', lambda ob: c19d(tree, ob), floor=2)
     chk.run('C19.e', 'R-PAIR', 'each terminal outcome (delete, deliver, forward / forward failure) gets exactly one report opportunity', lambda ob: c19e(tree, ob), floor=3)
     chk.run('C19.f', 'R-TYPE', 'the reported reason is a reason code (= C12.f)', lambda ob: c12f(tree, ob), floor=2)
     chk.run('C19.g', 'R-WHO', 'the forwarding path does not rewrite report-to / flags / source / creation timestamp of the subject before its report is generated (= C11.a restricted to report-relevant fields)', lambda ob: c11a(tree, ob, only=('report_to', 'bundle_flags', 'source', 'create_ts')), floor=1)
@@ -229,3 +230,41 @@ def c19e(tree, ob):
         ob.violate(AGENT, ff.qual, "record_action('forward')", 'forwarded is recorded without the send having returned', ff.func)
     else:
         ob.site(AGENT, recs[0], 'forward recorded after send_bundle returned')
+
+
+def c19d(tree, ob):
+    ''' A TX step that schedules transmissions itself (the fragmenter) consumes the bundle: it clears route and
+    sender and asks to interrupt the chain.  send_bundle must then not fall into its "no sender" raise, because
+    _do_fwd's except arm records delete/NO_ROUTE for it although the fragments were sent. '''
+    from .common import chain_steps
+    consumers = []
+    for s in [s for s in chain_steps(tree) if s['chain'] == 'tx']:
+        fm = tree.find_method(s['rel'], s['cls'], s['action'])
+        if not fm:
+            continue
+        fn = fm[2]
+        sched = [c for c in calls_in(fn) if call_name(c) == 'glib.idle_add' and c.args and src(c.args[0]).endswith('send_bundle')]
+        clears = [n for n in walk_local(fn) if isinstance(n, ast.Assign) and src(n.targets[0]) == 'ctr.sender' and isinstance(n.value, ast.Constant) and n.value.value is None]
+        truthy = [r for r in walk_local(fn) if isinstance(r, ast.Return) and isinstance(r.value, ast.Constant) and r.value.value is True]
+        if sched and clears and truthy:
+            consumers.append((fm[0], fm[1].name + '.' + fn.name, fn))
+            ob.site(fm[0], fn, 'TX step {} takes over transmission (schedules send_bundle, clears the sender, interrupts the chain)'.format(fn.name))
+    fv = FuncView(tree, AGENT, 'Agent.send_bundle')
+    lp = one([n for n in walk_local(fv.func) if isinstance(n, ast.For) and src(n.iter) == 'self._tx_chain'], 'TX chain loop', ob)
+    stops = [n for n in walk_local(lp) if isinstance(n, (ast.Break, ast.Return)) and fv.has(n, 'step.action(ctr)', True)]
+    st = one(stops, 'reaction to a step that interrupts the TX chain', ob)
+    raises = [r for r in walk_local(fv.func) if isinstance(r, ast.Raise) and fv.has(r, 'ctr.sender is None', True)]
+    ob.site(AGENT, st, 'interrupting step -> {}'.format(type(st).__name__.lower()))
+    if not consumers:
+        return
+    fd = FuncView(tree, AGENT, 'Agent._do_fwd')
+    dele = [c for c in method_calls(fd.func, 'record_action') if c.args and const_str(c.args[0]) == 'delete' and enclosing(c, (ast.ExceptHandler,)) is not None]
+    for r in raises:
+        wit = fv.cfg.path(fv.node(st), fv.node(r), include_exc=False)
+        if wit is not None and dele:
+            ob.violate(AGENT, fv.qual, 'step interrupted the chain -> ... -> raise RuntimeError(no sender)',
+                       'after the fragmenter took over the bundle (fragments scheduled, sender cleared) send_bundle raises "no sender"; '
+                       '_do_fwd turns that into delete/NO_ROUTE, so a bundle forwarded as fragments is reported deleted', r, path_text(wit))
+    snd = [c for c in calls_in(fv.func) if pm('ctr.sender($d)', c) is not None]
+    if snd and fv.cfg.path(fv.node(st), fv.node(snd[0]), include_exc=False) is not None and not raises:
+        ob.violate(AGENT, fv.qual, 'interrupt -> ctr.sender(data)', 'a bundle consumed by a TX step is also transmitted whole', snd[0])
